@@ -3,6 +3,7 @@ package annotations
 import (
 	"go/ast"
 	"go/token"
+	"go/types"
 	"regexp"
 	"strings"
 
@@ -536,10 +537,19 @@ func ReadAllAnnotations(
 	filesToScan := cfg.FilterFiles(pass)
 
 	for file := range filesToScan {
-		// Build import map for this file
+		// Build import map for this file. Each import is recorded together with the imported
+		// package, so that its declared name is known (it may differ from the last path element).
+		importedByPath := make(map[string]*types.Package)
+		for _, imported := range pass.Pkg.Imports() {
+			importedByPath[imported.Path()] = imported
+		}
 		imports := &util.ImportMap{}
 		for _, imp := range file.Imports {
-			imports.Add(imp, pass.Pkg)
+			var imported *types.Package
+			if imp.Path != nil {
+				imported = importedByPath[strings.Trim(imp.Path.Value, `"`)]
+			}
+			imports.Add(imp, imported)
 		}
 
 		for _, n := range file.Decls {
